@@ -1,12 +1,66 @@
-(** Property C07 (source map).
-    OBLIGATIONS: C07_nonvacuous *)
-From GV Require Import Compiler.Compile.
+(** Property C07 — the source map relates identical Go text in template and generated file.
+    Positions here are 1-based (line, byte column) as the writer counts them; the map's entries and the
+    look-ups are 0-based, as in the Go code.  Columns count bytes: that they should count UTF-16 units after
+    non-ASCII text is known finding F15, and these theorems do not claim it.
+    [sa_text] is the text handed to the write whose position the entry records: the token's literal at every
+    site of the emitter except `-` lines (the literal without surrounding white space) and `?` attributes (the
+    attribute's value, which the parser takes from the same token) — see the three hypotheses of Proofs/EmitInv.v.
+    OBLIGATIONS: C07_counter_is_end_of_text C07_entries_point_at_their_text C07_fragment_chars_at_target
+                 C07_position_maps_to_same_char C07_round_trip C07_nonvacuous *)
+From GV Require Import Compiler.Compile Proofs.EmitProofs Proofs.TargetProofs Proofs.SrcMapProofs.
+Open Scope N_scope.
 
+(** the writer's line/column counter is the position of the end of the generated text, for every tree *)
+Theorem C07_counter_is_end_of_text : forall sm root,
+  let w := emit_tree sm root in (w_line w, w_col w) = pos_of (output_of w).
+Proof. intros sm root. exact (proj1 (emit_tree_targets sm root)). Qed.
+Print Assumptions C07_counter_is_end_of_text.
+
+(** every recorded entry points at the place in the generated text where its fragment was written *)
+Theorem C07_entries_point_at_their_text : forall sm root,
+  let w := emit_tree sm root in
+  Forall (fun a => exists pre post, output_of w = pre ++ sa_text a ++ post /\ pos_of pre = (sa_tline a, sa_tcol a)) (w_adds w).
+Proof. intros sm root. exact (proj2 (emit_tree_targets sm root)). Qed.
+Print Assumptions C07_entries_point_at_their_text.
+
+(** also inside fragments that span several lines: character k sits where walking the first k characters leads *)
+Theorem C07_fragment_chars_at_target : forall sm root a k,
+  let w := emit_tree sm root in
+  In a (w_adds w) -> (k < List.length (sa_text a))%nat ->
+  exists pre post, output_of w = pre ++ [nth k (sa_text a) 0] ++ post /\
+                   pos_of pre = pos_after (sa_tline a, sa_tcol a) (firstn k (sa_text a)).
+Proof. exact fragment_chars_at_target. Qed.
+Print Assumptions C07_fragment_chars_at_target.
+
+(** end to end for a fragment on one line: the position of its k-th character in the template is mapped to the
+    position in the generated file that holds that very character *)
+Theorem C07_position_maps_to_same_char : forall root out adds err a k,
+  compose root = (out, adds, err) ->
+  keys_unique (sm_entries adds) = true ->
+  In a adds -> sa_text a = sa_lit a -> count_byte 10 (sa_lit a) = 0%nat -> (k < List.length (sa_lit a))%nat ->
+  s2t (sm_entries adds) (sa_line a - 1) (sa_col a - 1 + Z.of_nat k) = Some (sa_tline a - 1, sa_tcol a - 1 + Z.of_nat k)%Z /\
+  exists pre post, out = pre ++ [nth k (sa_lit a) 0] ++ post /\ pos_of pre = (sa_tline a, (sa_tcol a + Z.of_nat k)%Z).
+Proof. exact fragment_position_maps_to_same_char. Qed.
+Print Assumptions C07_position_maps_to_same_char.
+
+(** and back *)
+Theorem C07_round_trip : forall es l c tl tc,
+  keys_unique es = true -> s2t es l c = Some (tl, tc) -> t2s es tl tc = Some (l, c).
+Proof.
+  intros es l c tl tc Hu H. destruct (keys_unique_sound _ Hu) as [Hs Ht]. exact (round_trip_source es l c tl tc Hs Ht H).
+Qed.
+Print Assumptions C07_round_trip.
+
+(** the hypotheses hold for a real file: the keys are unique, and every entry's text is its literal, on one line *)
 Example C07_nonvacuous :
-  let src := lit "@goht T(a string) {" ++ [10; 9] ++ lit "%p #{a}" ++ [10] ++ lit "}" ++ [10] in
+  let src := lit "package p" ++ [10] ++ lit "@goht T(a string, ok bool) {" ++ [10; 9] ++
+             lit "%p.c{x: #{a}} t #{a}" ++ [10; 9] ++ lit "- if ok" ++ [10; 9; 9] ++ lit "= a" ++ [10] ++ lit "}" ++ [10] in
   match lsp_compose src with
-  | Some (_, adds, None) =>
-    match s2t (sm_entries adds) 1%Z 6%Z with Some (tl, tc) => Z.eqb tl 20 && Z.eqb tc 58 | None => false end
+  | Some (out, adds, None) =>
+    keys_unique (sm_entries adds)
+    && forallb (fun a => beqb (sa_text a) (sa_lit a) && Nat.eqb (count_byte 10 (sa_lit a)) 0) adds
+    && Nat.leb 6 (List.length adds)
+    && match s2t (sm_entries adds) 2%Z 11%Z with Some (tl, tc) => Z.eqb tl 20 && Z.eqb tc 52 | None => false end
   | _ => false
   end = true.
 Proof. vm_compute. reflexivity. Qed.
